@@ -528,7 +528,7 @@ func (g *gstate) opInvoke() {
 		}
 		w = append(w, le(v, 8)...)
 	}
-	if !r.Chance(1, 8) {
+	if g.loops || !r.Chance(1, 8) { // (stale bytes as gas are fine only when every program terminates)
 		g.emit("w,%d,%s", at, h.Hex(w))
 	}
 	g.emit("v,%d,%d", g.machineID(), at)
